@@ -222,9 +222,10 @@ def run_stage(case, res):
     if case.get("subproject_task") is not None and case["i"] % 2 == 1:
         # a *configured* sub-project task (as set_all_attributes_from_json leaves it)
         sub = m.tasks[case["subproject_task"]]
-        sub.file_path = "sub_%d.json" % case["i"]
+        # set_all_attributes_from_json(path) does not store the path: half of the configured tasks keep file_path None
+        sub.file_path = ("sub_%d.json" % case["i"]) if (case["i"] // 4) % 2 == 0 else None
         sub.read_json_file = True
-        sub.remove_absence_time_list = bool(case["i"] % 4 == 1)
+        sub.remove_absence_time_list = bool((case["i"] // 8) % 2 == 0)
         sub.default_work_amount = float(1 + case["i"] % 7)
         res.count("C16.configured_subproject_tasks")
     h = Hist(spec, order=order, model=m)
